@@ -774,7 +774,7 @@ class C13(PropBase):
             if rng.chance(1, 3):
                 names.insert(rng.below(len(names) + 1), rng.choice(names))     # a certificate name twice: the later member replaces the earlier
             certs = ",".join("%s:%s" % (c, "+".join(rng.choice(mods + ["other"]) for _ in range(rng.range(1, 3)))) for c in names)
-            cases.append("E %s %s" % (certs, ",".join(mods)))
+            cases.append("E %s %s%s" % (certs, ",".join(mods), " obj" if rng.chance(1, 3) else ""))     # obj: the table as a JSON object, not as a string holding JSON
         dist["E_cert_subjects"] = n_e
         for _ in range(n_e):
             cases.append(self.unloaded_u_case(rng))
